@@ -181,6 +181,12 @@ class CFG:
             r = self.prog.resolve(d)
             if r and r[1] in self.prog.modules[r[0]].functions:
                 return r
+        if isinstance(f, ast.Attribute) and not self.engine_pred(call, m):
+            # receiver of unknown type: resolve by method name when exactly one class of the package defines it
+            cands = [(mn, q) for mn, mm in self.prog.modules.items() for q in mm.functions
+                     if "." in q and q.split(".")[-1] == f.attr and not q.endswith(".setter")]
+            if len(cands) == 1 and f.attr not in PURE_METHODS:
+                return cands[0]
         return None
 
     # ------------------------------------------------------------------ expressions
